@@ -61,6 +61,10 @@ var Ops = map[string]Info{
 	"alias":  {Sharing, 1, true},
 	"remove": {Sharing, 1, true}, "remove-if": {Sharing, 1, true},
 	"remove-duplicates": {Sharing, 1, true},
+	// keyword variants: :from-end t :count 1 (the last match only), :start N :end M, remove-duplicates :from-end t
+	"remove-fe": {Sharing, 1, true}, "remove-if-fe": {Sharing, 1, true}, "remove-se": {Sharing, 1, true},
+	"remove-duplicates-fe": {Sharing, 1, true},
+	"delete-fe": {Destroy, 1, true}, "delete-se": {Destroy, 1, true},
 	"butlast":           {Fresh, 1, true}, "butlast1": {Fresh, 1, true}, "subseq": {Fresh, 1, true}, "subseq1": {Fresh, 1, true},
 	"copy-list": {Fresh, 1, true}, "copy-seq": {Fresh, 1, true}, "reverse": {Fresh, 1, true}, "mapcar": {Fresh, 1, true},
 	"push": {Rebind, 1, true}, "pop": {Rebind, 1, false},
@@ -170,6 +174,45 @@ func filter(v []int, keep func(int) bool) []int {
 	var out []int
 	for _, x := range v {
 		if keep(x) {
+			out = append(out, x)
+		}
+	}
+	return out
+}
+
+// dropLast removes the last element that matches (:from-end t :count 1).
+func dropLast(v []int, match func(int) bool) []int {
+	for i := len(v) - 1; i >= 0; i-- {
+		if match(v[i]) {
+			return append(append([]int(nil), v[:i]...), v[i+1:]...)
+		}
+	}
+	return append([]int(nil), v...)
+}
+
+// filterRange filters the elements with index in [lo, hi) only.
+func filterRange(v []int, lo, hi int, keep func(int) bool) []int {
+	var out []int
+	for i, x := range v {
+		if i < lo || i >= hi || keep(x) {
+			out = append(out, x)
+		}
+	}
+	return out
+}
+
+// dedupFirst keeps the first occurrence of every element (remove-duplicates :from-end t).
+func dedupFirst(v []int) []int {
+	var out []int
+	for i, x := range v {
+		earlier := false
+		for _, y := range v[:i] {
+			if y == x {
+				earlier = true
+				break
+			}
+		}
+		if !earlier {
 			out = append(out, x)
 		}
 	}
@@ -291,6 +334,32 @@ func (s *State) Plan(op Op) *Plan {
 	case "remove-duplicates":
 		p.Res = dedup(a)
 		p.ResGroup = s.shareWith(op.A, p.Res)
+	case "remove-fe":
+		p.Res = dropLast(a, func(x int) bool { return x == op.X })
+		p.ResGroup = s.shareWith(op.A, p.Res)
+	case "remove-if-fe":
+		p.Res = dropLast(a, func(x int) bool { return x%2 == 0 })
+		p.ResGroup = s.shareWith(op.A, p.Res)
+	case "remove-se":
+		p.N = mod(op.N, la+1)
+		p.M = p.N + mod(op.M, la-p.N+1)
+		p.Res = filterRange(a, p.N, p.M, func(x int) bool { return x != op.X })
+		p.ResGroup = s.shareWith(op.A, p.Res)
+	case "remove-duplicates-fe":
+		p.Res = dedupFirst(a)
+		p.ResGroup = s.shareWith(op.A, p.Res)
+	case "delete-fe", "delete-se":
+		if op.F == "delete-fe" {
+			p.Res = dropLast(a, func(x int) bool { return x == op.X })
+		} else {
+			p.N = mod(op.N, la+1)
+			p.M = p.N + mod(op.M, la-p.N+1)
+			p.Res = filterRange(a, p.N, p.M, func(x int) bool { return x != op.X })
+		}
+		if la > 0 {
+			p.Mut = s.Grp[op.A]
+			p.ResGroup = s.shareWith(op.A, p.Res)
+		}
 	case "butlast1":
 		if la > 1 {
 			p.Res = cp(a[:la-1])
